@@ -64,6 +64,9 @@ def run(ctx):
         ctx.prove_dep('props/C08.v', 'a delivery runs Channel::send (WithRawSiginfo / WithOrigin exfiltration)')
     LC.lockstep(ctx, [LC.mon_c08])
     LC.nested_sweep(ctx, ('panic', 'hang'))
+    # the iterators' action (store + wake_readers) runs inside the handler as well: its complete call list is part of C03's tie
+    if ctx.translate(['iter']):
+        ctx.prove_dep('iter/Calls.v', 'the iterator action is a built-in action of a delivery')
     # ... with C13: the self-pipe wake-up runs inside the handler; "never waits" rests on C13's non-blocking write /
     # send in every history of registrations on shared descriptions, full queues, removals
     import c13
